@@ -13,7 +13,7 @@
 From Coq Require Import List ZArith Permutation Sorting.
 From TskVerif Require Import Base.Common Gen.Generated C12.Model C12.BytesProofs C12.Unfold C12.ShapeProofs C12.RoundTripProofs
   C12.LayoutProofs C12.OrderProofs C12.ExhaustProofs C12.ValidProofs C12.JsonProofs C12.NormProofs
-  C12.StringProofs C12.TotalProofs C12.NumpyProofs.
+  C12.StringProofs C12.TotalProofs C12.NumpyProofs C12.TextProofs.
 Import ListNotations.
 Open Scope Z_scope.
 
@@ -77,6 +77,41 @@ Proof.
   split; intros ->; apply H; [left | right]; reflexivity.
 Qed.
 
+(* nullTerminated in multi-byte encodings (the model's [cut nt] scans whole nt-byte code units):
+   for a stateless encoding whose characters are whole u-byte units, NUL being the only all-zero
+   unit, and with decode (encode s) = s, the unit-wise cut of the stored bytes decodes to exactly
+   what decode_string returns: the decoded field cut at its first NUL *character*.  The field is
+   the text followed by whole padding units; a field ending inside a unit/character is the
+   UnicodeDecodeError of finding F9h and lies outside this statement. *)
+Theorem unit_cut_is_character_cut : forall (u' : nat) (uenc : Z -> list (list Z))
+    (tenc : list Z -> list Z) (tdec : list Z -> option (list Z)),
+  let u := S (S u') in
+  (forall s, tenc s = concat (flat_map uenc s)) ->
+  (forall c, c <> 0 -> Forall (unit_ok u) (uenc c)) ->
+  uenc 0 = [zeros u] ->
+  (forall s, tdec (tenc s) = Some s) ->
+  forall s k,
+  cut u (tenc s ++ zeros (u * k)) = tenc (cut0 s) /\
+  tdec (cut u (tenc s ++ zeros (u * k))) = Some (cut0 (s ++ repeat 0 k)) /\
+  tdec (tenc s ++ zeros (u * k)) = Some (s ++ repeat 0 k).
+Proof. exact TextProofs.unit_cut_is_character_cut. Qed.
+
+(* rows moved between tables: dst[j] = row / dst.append(row) *)
+Theorem transfer_roundtrip : forall round32 widen32 src dst bs bs' fuel,
+  rt_ok (t_schema dst) = true -> shape_ok (t_schema dst) = true ->
+  transfer round32 widen32 src dst bs = EOk bs' ->
+  exists obj rest,
+    decode_top widen32 (rt_fuel bs) src bs = DOk obj rest /\
+    validate_and_encode round32 dst obj = EOk bs' /\
+    ((t_nullable dst = true -> obj <> VNull -> bs' <> []) ->
+     decode_top widen32 fuel dst bs' = DOk (norm_top round32 widen32 dst obj) []).
+Proof. exact RoundTripProofs.transfer_roundtrip. Qed.
+
+Theorem transfer_invalid_rejected : forall round32 widen32 src dst bs obj rest,
+  decode_top widen32 (rt_fuel bs) src bs = DOk obj rest -> valid_top dst obj = false ->
+  transfer round32 widen32 src dst bs = EErr EValidation.
+Proof. exact RoundTripProofs.transfer_invalid_rejected. Qed.
+
 (* noLengthEncodingExhaustBuffer used as documented: last encoded property, items >= 1 byte *)
 Theorem exhaust_tail_roundtrip : forall round32 widen32 req ps k m it v bs fuel,
   forallb (fun p : prop => rt_ok (snd p)) ps = true ->
@@ -93,7 +128,7 @@ Proof. exact ExhaustProofs.exhaust_tail_roundtrip. Qed.
    binary32 -> binary64 -> binary32 is the identity (hypothesis on the platform conversion) *)
 Theorem norm_idempotent : forall round32 widen32,
   (forall w, 0 <= w < 2 ^ 32 -> round32 (widen32 w) = Some w) ->
-  forall s, nodup_keys s -> forall v,
+  forall s, nodup_keys s -> simple_units s -> forall v,
   norm round32 widen32 s (norm round32 widen32 s v) = norm round32 widen32 s v.
 Proof. exact NormProofs.norm_idempotent. Qed.
 
@@ -155,6 +190,14 @@ Theorem numpy_offsets_are_struct_offsets : forall s d l,
   np_dtype s = NOk d -> flat_sizes s = Some l ->
   offs (dt_layout d 0) = prefix_sums 0 l /\ sizes (dt_layout d 0) = l /\ dt_itemsize d = zsum l.
 Proof. exact NumpyProofs.numpy_offsets_are_struct_offsets. Qed.
+
+(* ts.<table>_metadata is the view of THAT table's schema *)
+Theorem table_view_own_schema : forall schemas k t d l,
+  nth_error schemas k = Some t -> table_view schemas k = NOk d ->
+  flat_sizes (modify (t_schema t)) = Some l ->
+  t_nullable t = false /\
+  offs (dt_layout d 0) = prefix_sums 0 l /\ sizes (dt_layout d 0) = l /\ dt_itemsize d = zsum l.
+Proof. exact NumpyProofs.table_view_own_schema. Qed.
 
 (* ---- (c) termination / consumption ---- *)
 Theorem decode_consumes : forall widen32 s fuel buf v rest,
@@ -219,6 +262,27 @@ Theorem nested_keyerror_propagates :
   c12_encode_swallows_nested_keyerror = false ->
   validate_and_encode round32_impl (modify_top subst_schema) (VObj [([111], VObj [([98], VInt 1)])]) = EErr EKey.
 Proof. exact ValidProofs.nested_keyerror_propagates. Qed.
+
+(* F9e on the current model: property names "properties" (any depth: AttributeError) and "type"
+   (top level: refused) — and nothing else about names reaches those two checks *)
+Theorem reserved_property_names_refuted :
+  let mk name := {| t_nullable := false; t_schema :=
+        SObj None [(name, {| p_index := 0; p_default := None |}, SLeaf TInteger (Some (BInt Ii)) 0%nat)] |} in
+  construct (mk [97]) = CAccept /\
+  construct (mk k_properties) = CAttrErr /\
+  construct (mk k_type) = CSchemaErr /\
+  construct {| t_nullable := false; t_schema :=
+      SObj None [([111], {| p_index := 0; p_default := None |}, t_schema (mk k_properties))] |} = CAttrErr /\
+  construct {| t_nullable := false; t_schema :=
+      SObj None [([111], {| p_index := 0; p_default := None |}, t_schema (mk k_type))] |} = CAccept.
+Proof. exact ValidProofs.reserved_property_names_refuted. Qed.
+
+Theorem reserved_names_boundary : forall t req ps,
+  t_schema t = SObj req ps ->
+  has_prop_named k_properties (t_schema t) = false ->
+  (key_in k_type (map pkey ps) = false \/ key_in k_binaryFormat (map pkey ps) = true) ->
+  construct t <> CAttrErr.
+Proof. exact ValidProofs.reserved_names_boundary. Qed.
 
 (* ---- (e) rejection ---- *)
 Theorem invalid_rejected : forall round32 t v,
